@@ -424,9 +424,7 @@ func writeReplay(prop string, o *Obligation, en *Engine) replayResult {
 	if o.Replay != nil {
 		rf.PkgDir = o.Replay.PkgDir
 	}
-	if o.Status == "failed" {
-		tryReplay(&rf, o, en)
-	}
+	tryReplay(&rf, o, en)
 	b, _ := json.MarshalIndent(rf, "", " ")
 	os.WriteFile(path, b, 0o644)
 	return replayResult{Path: path, Replayed: rf.Replayed}
